@@ -3,7 +3,7 @@ from propsdef import KERNEL, CORR, HARNESS
 PROP = {
         "obligations": [
             # the source-derived inventory (generated obligations: re-decided whenever /repo's sources change)
-            "sites_covered", "unsafe_sites_covered", "unsafe_accounts_wellformed", "c17_sites_covered", "no_stale_accounts",
+            "sites_covered", "unsafe_sites_covered", "unsafe_accounts_wellformed", "c17_sites_covered",
             # read_handler: one total case analysis, incl. the null-pointer / usize::try_from early exits
             "read_handler_total", "read_handler_success_iff",
             # Parser::new / next_event* / Drop as a resource trace
@@ -26,6 +26,8 @@ PROP = {
         # the search when an obligation or the correspondence breaks in the quick tier.
         "extra_cmds": {"thorough": ["./run_sanitizer.sh"], "search": ["./run_sanitizer.sh"]},
         "extra_cmd_timeout": 1500,
+        # When the build fails: which generated entries have no account (the functions to search in).
+        "diagnose_on_build_failure": [["lake", "env", "lean", "Uncovered.lean"]],
         "trusted_base": [
             KERNEL, CORR, HARNESS,
             "gen_from_source.py (the inventory script: a tokenizer + brace-scope tracker, not a Rust parser; its patterns are documented in its header). It decides what counts as a site and which fn a site belongs to; lean/XtModel/Generated/*.lean are rewritten from /repo's working tree before every build",
